@@ -214,7 +214,7 @@ def judge(kind, pos, shape, box, weights, offset, dtype=np.float64, pre=None):
             _tsc_scatter(pos, dens, box, weights=w, offset=offset)
         else:
             cic_serial(pos, dens, box, weights=w)
-    except IndexError as ex:
+    except (IndexError, SystemError) as ex:       # bounds check inside a parallel kernel surfaces as SystemError
         return f'out-of-bounds access: {ex}'
     ref = base + ref_paint(pos.astype(np.float64), shape, box, None if w is None else w.astype(np.float64), offset, kind)
     tol = (2e-5 if dtype == np.float32 else 1e-10) * max(1.0, float(np.abs(ref).max()))
